@@ -144,3 +144,4 @@ func vPanics(f func()) (panicked bool) {
 	f()
 	return false
 }
+func vClass(s string) {}
